@@ -16,6 +16,7 @@ from vc2_conformance.decoder.exceptions import (
     FragmentedPictureRestarted,
     PictureNumberChangedMidFragmentedPicture,
     TooManySlicesInFragmentedPicture,
+    FragmentedPictureMissingInitialFragment,
     FragmentSlicesNotContiguous,
 )
 
@@ -85,6 +86,14 @@ def fragment_header(state):
 
         state["_picture_initial_fragment_offset"] = fragment_offset
     else:
+        # (14.2) A fragment containing slices must follow a fragment with
+        # fragment_slice_count==0 which started the fragmented picture
+        if "_picture_initial_fragment_offset" not in state:
+            raise FragmentedPictureMissingInitialFragment(
+                fragment_offset,
+                state["fragment_slice_count"],
+            )
+
         # (14.2) Appart from when fragment_slice_count==0, the picture number
         # must not change
         if state["_last_picture_number"] != state["picture_number"]:
